@@ -147,6 +147,8 @@ func (g *gen) shareStructure(d *DocSpec) {
 	}
 	if g.w.Chance(1, 3) {
 		d.Subslice = []string{"page", "nums", "2"}
+	} else if g.w.Chance(1, 5) {
+		d.Typed = true
 	}
 }
 
@@ -308,13 +310,16 @@ func (g *gen) sharedExpr(spec *Spec, sharedDoc bool) {
 	if nt > 8 {
 		maxOps = 2
 	}
+	// callers may share one document between goroutines ("on the same or on
+	// different inputs"): a quarter of the shared-Expr runs do
+	oneDoc := !sharedDoc && g.k.Chance(1, 4)
 	for t := 0; t < nt; t++ {
 		var ops []Op
 		n := g.w.Range(1, maxOps)
 		for i := 0; i < n; i++ {
 			e := spec.Exprs[g.w.Intn(ne)]
 			d := fmt.Sprintf("d%d", t)
-			if sharedDoc {
+			if sharedDoc || oneDoc {
 				d = "d0"
 			}
 			op := Op{Kind: "eval", Expr: e.ID, Doc: d}
@@ -466,7 +471,7 @@ func (g *gen) regOp(version *int, global bool, expr string) Op {
 	default:
 		op.Kind = "eregvars"
 	}
-	if g.w.Chance(1, 10) {
+	if g.w.Chance(1, 6) {
 		op.Names = op.Names[:1]
 		if ext && g.w.Chance(1, 2) {
 			op.Invalid = "func"
